@@ -459,7 +459,13 @@ func (k Keeper) buildRequest(
 
 	if !superMode {
 		binding, _ := k.GetServiceBinding(ctx, serviceName, provider)
-		serviceFee = k.GetPrice(ctx, consumer, binding)
+
+		// the fee recorded is the fee the consumer was charged: the price exchanged into the base denom
+		price, _, err := k.GetExchangedPrice(ctx, consumer, binding)
+		if err != nil {
+			price = k.GetPrice(ctx, consumer, binding)
+		}
+		serviceFee = price
 	}
 
 	return types.NewCompactRequest(
